@@ -123,12 +123,7 @@ func propC06(c *Ctx, r *Report) {
 	ruleHeightPlumbing(c, r, "C06-R8/height-plumbing")
 	// the holding window advances only with a rated block: held batches are executed iff the block has winners
 	winnerTable(c, r, newEraCtx(c, r), "C06-R9/winners-gate-execution")
-	r.rule("C06-R6/settle-once", 1, "held PEG requests are settled once")
-	for _, ci := range findCalls(hold, "node.Pegnetd.recordPegnetRequests") {
-		if l := innermostLoop(hold, ci.Block()); l != nil {
-			settleOnce(c, r, "C06-R6/settle-once", hold, ci, l)
-		}
-	}
+	ruleSettleOnceFam(c, r, "C06-R6/settle-once")
 }
 
 func ruleReplayGuard(c *Ctx, r *Report, rule string) {
